@@ -2,7 +2,7 @@
    data sets: parsing the encoding of a conformant message yields exactly the expected decode,
    the rest of the buffer, and the expected caches. *)
 From NF Require Import Base Nom Types Layout Value Ipfix Interp IxStream.
-From NF Require Import BaseFacts NomFacts LayoutFacts FixedFacts ValueFacts VarFacts DecodeFacts TotalFacts.
+From NF Require Import BaseFacts NomFacts LayoutFacts FixedFacts ValueFacts VarFacts DecodeFacts TotalFacts CacheFacts.
 From Coq Require Import Lia.
 Open Scope string_scope.
 Open Scope list_scope.
@@ -293,4 +293,47 @@ Proof.
   replace (16 + lenN (enc_isets s l) - 16)%N with (lenN (enc_isets s l)) by lia.
   unfold map_res_take_st. rewrite take_c_lenN. unfold many0_st.
   rewrite (decode_isets puf l s xs s' _ Hc Hx); [reflexivity|lia].
+Qed.
+
+(* ---- C07 for IPFIX at message level: conformant sets, then a set the loop cannot take ---- *)
+Lemma decode_isets_then_stop puf : forall l s xs s' tail fuel,
+  conformant_isets puf s l -> expect_isets s l = Some (xs, s') ->
+  parse_iset puf s' tail = (Err EError, s') ->
+  (length (enc_isets s l ++ tail) < fuel)%nat ->
+  many0_st_aux fuel (complete_st (parse_iset puf)) s (enc_isets s l ++ tail) = (Ok xs tail, s').
+Proof.
+  induction l as [|f l IH]; intros s xs s' tail fuel Hc Hx Ht Hf; cbn [expect_isets] in Hx.
+  - inversion Hx; subst. destruct fuel; [cbn in Hf; lia|]. cbn [enc_isets app many0_st_aux].
+    unfold complete_st. now rewrite Ht.
+  - destruct Hc as [Hcf Hc].
+    destruct (expect_iset s f) as [x|] eqn:Ex; [|discriminate].
+    destruct (expect_isets (learn_iset s f) l) as [[xs' s2]|] eqn:Es; [|discriminate]. inversion Hx; subst.
+    destruct fuel; [lia|]. cbn [enc_isets many0_st_aux]. cbn [enc_isets] in Hf. rewrite <- app_assoc in *.
+    rewrite app_length in Hf.
+    unfold complete_st at 1. rewrite (decode_iset puf s f x _ Hcf Ex).
+    rewrite shorter_spec. pose proof (enc_iset_length s f) as H4.
+    assert (Hs : (length (enc_isets (learn_iset s f) l ++ tail) <? length (enc_iset s f ++ enc_isets (learn_iset s f) l ++ tail))%nat = true).
+    { apply Nat.ltb_lt. rewrite (app_length (enc_iset s f)). lia. }
+    rewrite Hs. rewrite (IH _ _ _ tail fuel Hc Es Ht); [reflexivity|lia].
+Qed.
+
+(* a message whose sets are: any conformant list, then a data set for an id in neither IPFIX map
+   (after those sets), then anything up to the message length: the message is reported with exactly
+   the conformant sets, the caches are what those sets made them, and the bytes after the message
+   are the rest: the unknown set and everything after it inside the message are omitted *)
+Lemma decode_message_unknown puf s h l xs s' tail rest id len r1 r2 :
+  wf_vals ipfix_header_layout [] h ->
+  get_field ipfix_header_layout h "length" = (16 + lenN (enc_isets s l ++ tail))%N ->
+  conformant_isets puf s l -> expect_isets s l = Some (xs, s') ->
+  u_s 2 tail = Ok id r1 -> u_s 2 r1 = Ok len r2 -> (ipfix_set_min_range <= id)%N ->
+  lookup id (ix_t s') = None -> lookup id (ix_o s') = None ->
+  parse_ipfix puf s (wire_bytes ipfix_header_layout h ++ (enc_isets s l ++ tail) ++ rest)
+  = (Ok {| ix_header := h; ix_sets := xs |} rest, s').
+Proof.
+  intros Hwf Hlen Hc Hx H1 H2 Hid Ht Ho. unfold parse_ipfix, parse_layout.
+  rewrite (parse_layout_aux_enc _ _ _ _ Hwf). rewrite Hlen.
+  replace (16 + lenN (enc_isets s l ++ tail) - 16)%N with (lenN (enc_isets s l ++ tail)) by lia.
+  unfold map_res_take_st. rewrite take_c_lenN. unfold many0_st.
+  pose proof (CacheFacts.parse_iset_unknown puf s' tail id len r1 r2 H1 H2 Hid Ht Ho) as Hu.
+  rewrite (decode_isets_then_stop puf l s xs s' tail _ Hc Hx Hu); [reflexivity|lia].
 Qed.
